@@ -95,6 +95,47 @@ let split3 (bs : coq_N list) : coq_N list * coq_N list * coq_N list =
   let (b, r2) = cut r1 in
   (a, b, r2)
 
+(* ---- configuration records (C16ConfRecModel.v): class and the whole decoded value *)
+let cr_nalus (l : BinNums.coq_N list list) : string =
+  match l with [] -> "[]" | _ -> S.concat "," (L.map hex_of_bytes l)
+
+let cr_hexs (l : BinNums.coq_N list) : string = S.concat "," (L.map hex_of_n l)
+
+let cr_bool (b : bool) : BinNums.coq_N = n_of_int (if b then 1 else 0)
+
+let cr_class (f : 'a -> string) (r : 'a Base.res) : string * string =
+  match r with
+  | Base.Ok v -> ("ok", f v)
+  | Base.Err -> ("err", "")
+  | Base.Panic -> ("panic", "")
+  | Base.OutOfFuel -> ("hang", "")
+
+let run_confrec (fn : string) (bs : BinNums.coq_N list) : (string * string) option =
+  let open C16ConfRecModel in
+  match fn with
+  | "avc.DecodeAVCDecConfRec#v" ->
+    Some (cr_class (fun (r, _) ->
+        S.concat ";" [cr_hexs [r.ar_profile; r.ar_compat; r.ar_level]; cr_nalus r.ar_sps; cr_nalus r.ar_pps;
+                      cr_hexs [r.ar_chroma; r.ar_bdl; r.ar_bdc; r.ar_num_sps_ext; cr_bool r.ar_no_trailing]])
+        (avc_decode_dec_conf_rec bs))
+  | "hevc.DecodeHEVCDecConfRec#v" ->
+    Some (cr_class (fun (r, _) ->
+        S.concat ";"
+          (cr_hexs [r.hr_version; r.hr_profile_space; cr_bool r.hr_tier; r.hr_profile_idc; r.hr_compat_flags;
+                    r.hr_constraint_flags; r.hr_level_idc; r.hr_min_spatial_seg; r.hr_parallelism; r.hr_chroma;
+                    r.hr_bdl; r.hr_bdc; r.hr_avg_frame_rate; r.hr_const_frame_rate; r.hr_num_temporal_layers;
+                    r.hr_temporal_id_nested; r.hr_length_size_minus_one]
+           :: L.map (fun (ct, nalus) ->
+               cr_hexs [hevc_arr_complete ct; hevc_arr_type ct] ^ "," ^ cr_nalus nalus) r.hr_arrays))
+        (hevc_decode_dec_conf_rec bs))
+  | "av1.DecodeAV1CodecConfRec#v" ->
+    Some (cr_class (fun r ->
+        cr_hexs [r.av_version; r.av_seq_profile; r.av_seq_level_idx0; r.av_seq_tier0; r.av_high_bitdepth;
+                 r.av_twelve_bit; r.av_monochrome; r.av_subsampling_x; r.av_subsampling_y; r.av_sample_position;
+                 r.av_ipd_present; r.av_ipd_minus_one] ^ ";" ^ hex_of_bytes r.av_config_obus)
+        (av1_decode_codec_conf_rec bs))
+  | _ -> None
+
 let run (fn : string) (bs : coq_N list) (arg : int) : string * string =
   match fn with
   | "avc.ParseSPSNALUnit" -> show1 sps_string (c16_parse_sps (arg land 1 = 1) bs)
@@ -180,7 +221,7 @@ let run (fn : string) (bs : coq_N list) (arg : int) : string * string =
      | Err -> ("err", "")
      | Panic -> ("panic", "")
      | OutOfFuel -> ("hang", ""))
-  | _ -> ("unknown-function", "")
+  | _ -> (match run_confrec fn bs with Some cv -> cv | None -> ("unknown-function", ""))
 
 let () =
   iter_lines (fun line ->
